@@ -204,7 +204,54 @@ def nested_compound_case(case):
     return dict(reproduced=bool(violated), violated=violated[:8], probes=probes)
 
 
+def map_identity_case(case):
+    """C03 (Map): the compiled validator and Map.validate consult ONE dictionary -- at every point of a history in which the
+    application changes the dictionary it handed to Map(...) the two sides accept the same values."""
+    from traits.api import HasTraits, Map, TraitError, Either, Int, Tuple
+    violated = []
+    reg = {"red": 1, "green": 2}
+
+    class Model(HasTraits):
+        color = Map(reg)
+        alt = Either(Map(reg), Int)
+        pair = Tuple(Map(reg), Int)
+    o = Model()
+
+    def out(f, *a):
+        try:
+            return ("ok", f(*a))
+        except TraitError:
+            return ("TraitError",)
+        except Exception as e:
+            return ("raises", type(e).__name__)
+
+    def compare(stage):
+        for nm, cands in (("color", ["red", "green", "blue", "mauve", 3, None, []]), ("alt", ["red", "blue", "mauve", 4]),
+                          ("pair", [("red", 1), ("blue", 1), ("mauve", 1)])):
+            ct = o.trait(nm)
+            for v in cands:
+                c, p = out(ct.validate, o, nm, v), out(ct.handler.validate, o, nm, v)
+                if c != p:
+                    violated.append("[%s] %s <- %r: compiled path %r, Python validate %r" % (stage, nm, v, c, p))
+                if nm == "alt":
+                    continue        # assigning to a compound with a mapped member runs the mapped post_setattr: not validation
+                s_ = out(setattr, o, nm, v)
+                if (s_[0] == "ok") != (p[0] == "ok"):
+                    violated.append("[%s] assignment %s = %r: %s, Python validate %s" % (stage, nm, v, s_[0], p[0]))
+    compare("as defined")
+    reg["blue"] = 3
+    compare("a key was added to the application's dictionary")
+    del reg["red"]
+    compare("a key was removed from the application's dictionary")
+    h = Model.class_traits()["color"].handler
+    if h.map is not reg or h.fast_validate[1] is not reg:
+        violated.append("Map(...).map / the compiled descriptor's dictionary is not the dictionary handed in")
+    return dict(reproduced=bool(violated), violated=violated[:12])
+
+
 def run(case):
+    if case.get("family") == "Map.__init__":
+        return map_identity_case(case)
     if case.get("family") == "nested_compound":
         return nested_compound_case(case)
     if case.get("family") == "resolve_class":
